@@ -63,13 +63,15 @@ for mid in ids:
             mm = re.search(r'rhp/v[234]', src)
             dd = meta.get('demo_dir') or (mm.group(0) if mm else 'rhp/v4')
         dd = meta.get('demo_dir', dd)
-        mm = re.search(r'func (Test\w+)\(', src)
+        # every test of the demonstration file (some files begin with a control that passes either way)
+        names = re.findall(r'^func (Test\w+)\(', src, re.M)
+        mm = re.match(r'(.*)', '|'.join(names))
         tgt = f'{wt}/{dd}/zz_seeded_demo_test.go'
         shutil.copy(demo, tgt)
-        rc, o = sh(f'go test -vet=off -count=1 -run "^{mm.group(1)}$" ./{dd}/', cwd=wt)
+        rc, o = sh(f'go test -vet=off -count=1 -run "^({mm.group(1)})$" ./{dd}/', cwd=wt)
         r['demo_fails_with_patch'] = rc != 0
         sh(f'git -C {wt} apply -R {patch}')
-        rc, o = sh(f'go test -vet=off -count=1 -run "^{mm.group(1)}$" ./{dd}/', cwd=wt)
+        rc, o = sh(f'go test -vet=off -count=1 -run "^({mm.group(1)})$" ./{dd}/', cwd=wt)
         r['demo_passes_without_patch'] = rc == 0
         os.remove(tgt)
         sh(f'git -C {wt} apply {patch}')
